@@ -94,6 +94,11 @@ def main():
         os.remove(out)
     opts = runs.options(solve_time=cfg.get("T", 0.2), dt_init=cfg.get("dt", 5e-3), dt_max=5e-2, adaptive=cfg.get("adaptive", False), adaptive_window=2,
                         save_every=cfg.get("save_every", 3), output_file=out, **(dict(progress_interval=cfg["progress"]) if cfg.get("progress") else {}), include_screening=cfg.get("screening", False), screening_tolerance=1e-3)
+    if cfg.get("occupy") and out:
+        # the requested path already holds the output of an earlier run of ANOTHER problem (a script run again after its
+        # field was changed): the new run must neither read nor report anything of it
+        tdgl.solve(dev, runs.options(solve_time=cfg.get("T", 0.2) / 2, dt_init=cfg.get("dt", 5e-3), adaptive=False, save_every=3, output_file=out),
+                   applied_vector_potential=tdgl.Parameter(vec, B=1.3 * cfg.get("B", 0.5) + 0.2), terminal_currents=cur)
     seed = None
     if cfg.get("seeded"):
         # a short run whose final state seeds the runs that are compared (the seed object is reused below)
